@@ -172,4 +172,6 @@ if __name__ == "__main__":
         with ThreadPoolExecutor(max_workers=jobs) as ex:
             bad = sum(ex.map(work, enumerate(lists)))
         print("%d seeds, %d not reported" % (len(todo), bad))
+        for k in range(jobs):
+            shutil.rmtree(os.path.join(VERIF, ".cache", "mutslots", "s%d" % k), ignore_errors=True)
         sys.exit(1 if bad else 0)
